@@ -303,6 +303,8 @@ def run(ctx):
                        "reading of 'consistent': 0 <= pos <= len(doc), lineno = newlines before pos + 1, colno = pos - index of "
                        "the last newline before pos; pos is the start of the pending lexeme, not necessarily the offending character"]
     secs.append(s2)
+    from . import lexeme
+    secs.append(lexeme.sweep_section(ctx))
     secs.append(lexer_loop_section())
     secs.append(ground_section())
     secs.append(exhaustive_section(ctx))
